@@ -97,7 +97,7 @@ def rows_of(q, xs, sel, m, form="set_of"):
 
 
 def run_an(world, kinds, cond, sel, *, form="set_of", how="let", order=None, perm=None, caching=True,
-           register=True, split_top_and=False, quant="an", times=1):
+           register=True, split_top_and=False, quant="an", times=1, take_first=0):
     """Build a fresh query and evaluate it `times` times.  Returns list of row lists (one per evaluation)."""
     from entity_query_language.cache_data import enable_caching, disable_caching
     m = labels_of(world)
@@ -106,6 +106,12 @@ def run_an(world, kinds, cond, sel, *, form="set_of", how="let", order=None, per
     try:
         q, xs = build_query(kinds, doms, cond, sel, form=form, how=how, order=order, register=register,
                             split_top_and=split_top_and, quant=quant)
+        if take_first:      # an earlier evaluation that is abandoned after a few results
+            it = q.evaluate()
+            for _ in range(take_first):
+                if next(it, None) is None:
+                    break
+            it.close()
         return [rows_of(q, xs, sel, m, form) for _ in range(times)]
     finally:
         enable_caching()
